@@ -364,7 +364,11 @@ TU = ann(
     max_props=1,
 )
 TU_SRC = "from apischema.tagged_unions import TaggedUnion, Tagged"
+DF = obj("DF", F("inner", INNER, flatten=True), F("w", INT, default=V("0")))
+DP = obj("DP", F("k", STR, default=V("''")), F("p", mp(INT), default=Fy("dict"), properties="^p"))
 UNION_EXTRA: Dict[str, Tuple[Sp, str]] = {
+    "disc(flatten)": (disc("type", (("DF", "DF"), ("DA", "DA")), DF, DA), ""),
+    "disc(props)": (disc("type", (("DP", "DP"), ("DA", "DA")), DP, DA), ""),
     "u(S2,FL)": (union(S2, FL), ""),
     "u(FL,S2)": (union(FL, S2), ""),
     "u(S2,S3)": (union(S2, S3), ""),
